@@ -1130,12 +1130,23 @@ def run_chunk(cases, tag=''):
         for k, case in enumerate(cases):
             name = f'c19_mod_{tag}{k}'
             path = os.path.join(d, name + '.py')
-            with open(path, 'w') as f:
-                f.write(case['x']['src'])
             if case['c']['env']['enabled']:
                 os.environ.pop('ENABLE_PEDANTIC', None)
             else:
                 os.environ['ENABLE_PEDANTIC'] = '0'
+            if case['x'].get('prime_src'):
+                # primed twin (amplified run): a decoy with the same module name, file name and qualified names but another docstring
+                # is imported (decorated) first; whatever it does is ignored
+                with open(path, 'w') as f:
+                    f.write(case['x']['prime_src'])
+                try:
+                    dspec = importlib.util.spec_from_file_location(name, path)
+                    dspec.loader.exec_module(importlib.util.module_from_spec(dspec))
+                except BaseException:
+                    pass
+                importlib.invalidate_caches()
+            with open(path, 'w') as f:
+                f.write(case['x']['src'])
             spec = importlib.util.spec_from_file_location(name, path)
             mod = importlib.util.module_from_spec(spec)
             sys.modules[name] = mod        # as an import does: the module is registered while its body runs
@@ -1275,3 +1286,51 @@ def extra_coverage(results):
                 dts[t] = dts.get(t, 0) + 1
     return {'edit_histogram': edits, 'outcome_histogram': outs, 'documented_type_outcome_classes': dts,
             'edited_syntax_node_kinds': nodes}
+
+
+# ------------------------------------------------------------------ twins for the amplified run (core.amplified_run, props/_twins.py)
+
+_DECOY_DOC = 'Summary.\n\n    Args:\n        zz_nope (int): text\n    '
+
+
+def _decoy_src(src, how):
+    """the module of a case with other docstrings: `nodoc` = no docstring at all and decorators that do not demand one (decoration
+    succeeds), `baddoc` = every docstring documents a parameter that does not exist (decoration of a checked function fails)"""
+    tree = ast.parse(src)
+    changed = False
+    for node in ast.walk(tree):
+        if isinstance(node, (ast.FunctionDef, ast.AsyncFunctionDef)):
+            has = bool(node.body) and isinstance(node.body[0], ast.Expr) and isinstance(node.body[0].value, ast.Constant) \
+                and isinstance(node.body[0].value.value, str)
+            if how == 'nodoc' and has:
+                node.body = node.body[1:] or [ast.Pass()]
+                changed = True
+            elif how == 'baddoc' and has:
+                node.body[0].value = ast.Constant(_DECOY_DOC)
+                changed = True
+        if how == 'nodoc' and isinstance(node, (ast.FunctionDef, ast.AsyncFunctionDef, ast.ClassDef)):
+            for i, dn in enumerate(node.decorator_list):
+                t = ast.unparse(dn)
+                if t in ('pedantic_require_docstring', 'pedantic(require_docstring=True)'):
+                    node.decorator_list[i] = ast.Name('pedantic', ast.Load()); changed = True
+                elif t == 'pedantic_class_require_docstring':
+                    node.decorator_list[i] = ast.Name('pedantic_class', ast.Load()); changed = True
+    if not changed:
+        return None
+    return ast.unparse(ast.fix_missing_locations(tree)) + '\n'
+
+
+def twins(case):
+    """primed twins: the module of the case is imported after a decoy that has the SAME module name, file and qualified names (same
+    signatures) but no docstring / an inconsistent docstring; the expected outcome is the one of the case itself"""
+    if case.get('x', {}).get('prime_src'):
+        return []
+    out = []
+    for how in ('nodoc', 'baddoc'):
+        try:
+            d = _decoy_src(case['x']['src'], how)
+        except Exception:
+            d = None
+        if d is not None and d != case['x']['src']:
+            out.append(dict(case, x=dict(case['x'], prime_src=d, prime=how)))
+    return out
